@@ -106,6 +106,77 @@ def _writes_through(stmts, names: set[str]) -> bool:
     return False
 
 
+def is_reference(e) -> bool:
+    """a path to an existing object: name, attribute chain, constant-indexed subscript"""
+    if isinstance(e, ast.Name):
+        return True
+    if isinstance(e, ast.Attribute):
+        return is_reference(e.value)
+    if isinstance(e, ast.Subscript):
+        return is_reference(e.value) and (isinstance(e.slice, ast.Constant) or is_reference(e.slice))
+    return False
+
+
+SCALAR_FUNCS = {"len", "int", "str", "bool", "isinstance", "min", "max", "sum", "any", "all", "float", "abs"}
+
+
+def is_scalar(e) -> bool:
+    """value semantics: evaluating it twice gives interchangeable results (numbers, booleans, strings built from references)"""
+    if isinstance(e, ast.Constant):
+        return True
+    if isinstance(e, ast.Call):
+        return isinstance(e.func, ast.Name) and e.func.id in SCALAR_FUNCS and not e.keywords and all(is_scalar(a) or is_reference(a) or _pure_arg(a) for a in e.args)
+    if isinstance(e, ast.BinOp):
+        return (is_scalar(e.left) or is_reference(e.left)) and (is_scalar(e.right) or is_reference(e.right)) and is_scalar_op(e)
+    if isinstance(e, ast.UnaryOp):
+        return is_scalar(e.operand) or is_reference(e.operand)
+    if isinstance(e, ast.Compare):
+        return all(is_scalar(x) or is_reference(x) for x in [e.left] + e.comparators)
+    if isinstance(e, ast.BoolOp):
+        return all(is_scalar(x) or is_reference(x) for x in e.values)
+    return False
+
+
+def is_scalar_op(e) -> bool:
+    # `a + b` on lists builds a fresh list: only arithmetic whose operands are scalar counts
+    return all(is_scalar(x) for x in (e.left, e.right))
+
+
+def _pure_arg(a) -> bool:
+    return is_pure(a) and not any(isinstance(n, ast.Call) and not (isinstance(n.func, ast.Name) and n.func.id in SCALAR_FUNCS) and not (isinstance(n.func, ast.Attribute) and n.func.attr in PURE_METHODS) for n in ast.walk(a))
+
+
+def _store_kill(env: dict, s: ast.AST) -> None:
+    """drop bindings whose defining expression may evaluate differently after statement s: it reads an attribute
+    that s stores, or indexes a container that s stores into / calls a non-read-only method on"""
+    attrs, bases = set(), set()
+    for n in ast.walk(s):
+        if isinstance(n, ast.Attribute) and isinstance(n.ctx, (ast.Store, ast.Del)):
+            attrs.add(n.attr)
+        if isinstance(n, ast.Subscript) and isinstance(n.ctx, (ast.Store, ast.Del)):
+            bases.add(ast.unparse(n.value))
+        if isinstance(n, ast.AugAssign):
+            if isinstance(n.target, ast.Attribute):
+                attrs.add(n.target.attr)
+            bases.add(ast.unparse(n.target))
+        if isinstance(n, ast.Call) and isinstance(n.func, ast.Attribute) and n.func.attr not in PURE_METHODS and not n.func.attr[:1].isupper():
+            bases.add(ast.unparse(n.func.value))
+    if not attrs and not bases:
+        return
+    for k in list(env):
+        v = env[k]
+        for n in ast.walk(v):
+            if isinstance(n, ast.Attribute) and n.attr in attrs:
+                del env[k]
+                break
+            if isinstance(n, ast.Subscript) and ast.unparse(n.value) in bases:
+                del env[k]
+                break
+            if isinstance(n, ast.Call) and isinstance(n.func, ast.Attribute) and ast.unparse(n.func.value) in bases:
+                del env[k]
+                break
+
+
 def forward_subst(stmts: list[ast.stmt], pure_calls=(), keep: set[str] = frozenset()) -> list[ast.stmt]:
     """Replace reads of pure single-name temporaries by their definitions, in program order.
 
@@ -114,6 +185,11 @@ def forward_subst(stmts: list[ast.stmt], pure_calls=(), keep: set[str] = frozens
     rebound and (iv) x itself is not mutated through (x.append, x[i] = ..).  The defining statement is kept (it is
     harmless), so nothing is lost when the substitution is partial."""
     stmts = [copy.deepcopy(s) for s in stmts]
+    nreads: dict[str, int] = {}
+    for s_ in stmts:
+        for n in ast.walk(s_):
+            if isinstance(n, ast.Name) and isinstance(n.ctx, ast.Load):
+                nreads[n.id] = nreads.get(n.id, 0) + 1
 
     def free(e):
         return {n.id for n in ast.walk(e) if isinstance(n, ast.Name)}
@@ -128,22 +204,28 @@ def forward_subst(stmts: list[ast.stmt], pure_calls=(), keep: set[str] = frozens
                 for t in tgts:
                     if not isinstance(t, ast.Name):
                         _visit_target(t, env)
-                names = _assigned_names([ast.Module(body=[ast.Expr(t) for t in tgts], type_ignores=[])]) if False else {
-                    n.id for t in tgts for n in ast.walk(t) if isinstance(n, ast.Name) and isinstance(n.ctx, ast.Store)}
+                names = {n.id for t in tgts for n in ast.walk(t) if isinstance(n, ast.Name) and isinstance(n.ctx, ast.Store)}
                 _kill(env, names)
                 if len(tgts) == 1 and isinstance(tgts[0], ast.Name) and tgts[0].id not in keep and is_pure(s.value, pure_calls) \
-                        and tgts[0].id not in free(s.value) or (len(tgts) == 1 and isinstance(tgts[0], ast.Name) and tgts[0].id not in keep
-                                                                and is_pure(s.value, pure_calls) and _self_update_ok(tgts[0].id, s.value)):
+                        and tgts[0].id not in free(s.value):
                     x = tgts[0].id
-                    if not _writes_through(rest, {x}):
+                    # an alias of an existing object can always be replaced by the path that reaches the object;
+                    # a freshly built value only while nothing mutates it through the name
+                    _store_kill(env, s)
+                    if is_reference(s.value) or is_scalar(s.value) or (nreads.get(x, 0) <= 1 and not _writes_through(rest, {x})):
                         env[x] = s.value
+                else:
+                    _store_kill(env, s)
                 out.append(s)
                 continue
             if isinstance(s, ast.AugAssign):
                 s.value = _Subst(env).visit(s.value)
                 _kill(env, {n.id for n in ast.walk(s.target) if isinstance(n, ast.Name)})
+                _store_kill(env, s)
                 out.append(s)
                 continue
+            if not isinstance(s, (ast.FunctionDef, ast.ClassDef, ast.AsyncFunctionDef)) and hasattr(s, "body"):
+                _store_kill(env, s)
             if isinstance(s, (ast.If, ast.While)):
                 s.test = _Subst(env).visit(s.test)
                 killed = _assigned_names(s.body + s.orelse)
@@ -201,6 +283,7 @@ def forward_subst(stmts: list[ast.stmt], pure_calls=(), keep: set[str] = frozens
             s2 = _Subst(env).visit(s)
             # walrus targets anywhere in the statement kill bindings
             _kill(env, {n.target.id for n in ast.walk(s2) if isinstance(n, ast.NamedExpr)})
+            _store_kill(env, s2)
             out.append(s2)
         return out
 
@@ -208,10 +291,6 @@ def forward_subst(stmts: list[ast.stmt], pure_calls=(), keep: set[str] = frozens
         for f, v in ast.iter_fields(t):
             if isinstance(v, ast.expr):
                 setattr(t, f, _Subst(env).visit(v))
-
-    def _self_update_ok(x, value):
-        # `x = x or {}` style re-binding of a parameter: substitute with the parameter renamed is not expressible; skip
-        return False
 
     def _kill(env, names):
         for k in list(env):
